@@ -631,10 +631,6 @@ HANDLERS = {"m.drop": h_m_drop, "buf.new": h_buf_new, "m.new": h_m_new, "m.call"
 
 # -- per-step oracles -----------------------------------------------------------
 
-def owner_site(st, mid, default):
-    return CLS[st.models[mid]["type"]] + ".__init__"
-
-
 def check_models(w, st, site, failed=False, after_scribble=False):
     """Oracles 1 and 2 for every live model."""
     for mid in list(st.models):
@@ -1126,10 +1122,17 @@ def generate(run_seed, deep=False):
             rec = gs.agenda.pop(sc.randrange(len(gs.agenda)))
             rec["c"] = c
             ops.append(rec)
-            # after a fault, query the models again
-            for mid in list(gs.models):
-                if sc.random() < 0.5 and gs.repeatable:
-                    pass
+            # after a fault, ask the affected model (else any model) an already answered question again
+            tgt = str(rec.get("target", ""))
+            related = [r for r in gs.repeatable if r.get("op") == "m.call" and r.get("m") in gs.models and
+                       (tgt.startswith(r["m"] + ".") or tgt in gs.models[r["m"]]["bufs"])]
+            pool = related or gs.repeatable[-12:]
+            if pool and sc.random() < 0.6:
+                r2 = copy.deepcopy(sc.choice(pool))
+                r2["c"] = sc.randrange(nclients)
+                r2.pop("as_model", None)
+                r2.pop("keep", None)
+                ops.append(r2)
             continue
         kind = sc.choices(kinds, [wt[k] for k in kinds])[0]
         if kind == "m.new":
